@@ -66,12 +66,10 @@ def u8step (s : U8) (b : Nat) : Option (U8 × Text) :=
   if s.need = 0 then
     if b < 0x80 then some (U8.start, [b])
     else if 0xC2 ≤ b && b ≤ 0xDF then some (⟨1, b - 0xC0, 0x80, 0xBF⟩, [])
-    else if b = 0xE0 then some (⟨2, 0, 0xA0, 0xBF⟩, [])
-    else if b = 0xED then some (⟨2, 0xD, 0x80, 0x9F⟩, [])
-    else if 0xE1 ≤ b && b ≤ 0xEF then some (⟨2, b - 0xE0, 0x80, 0xBF⟩, [])
-    else if b = 0xF0 then some (⟨3, 0, 0x90, 0xBF⟩, [])
-    else if b = 0xF4 then some (⟨3, 4, 0x80, 0x8F⟩, [])
-    else if 0xF1 ≤ b && b ≤ 0xF3 then some (⟨3, b - 0xF0, 0x80, 0xBF⟩, [])
+    else if 0xE0 ≤ b && b ≤ 0xEF then
+      some (⟨2, b - 0xE0, if b = 0xE0 then 0xA0 else 0x80, if b = 0xED then 0x9F else 0xBF⟩, [])
+    else if 0xF0 ≤ b && b ≤ 0xF4 then
+      some (⟨3, b - 0xF0, if b = 0xF0 then 0x90 else 0x80, if b = 0xF4 then 0x8F else 0xBF⟩, [])
     else none
   else if s.lo ≤ b && b ≤ s.hi then
     if s.need = 1 then some (U8.start, [s.acc * 64 + (b - 0x80)])
@@ -379,6 +377,37 @@ inductive Trace
   | ctype (rendered : Text) (parsed : Parsed)
   | copy (obs : List CopyObs)
 deriving Repr
+
+/-! ## known-finding classes (KNOWN_FINDINGS.txt) -/
+
+/-- `"=?"` occurs in the text: the start of an RFC 2047 encoded word -/
+def hasEncodedWordStart : Text → Bool
+  | a :: b :: rest => (a == 61 && b == 63) || hasEncodedWordStart (b :: rest)
+  | _ => false
+
+def charsetComma (ct : CT) : Bool := ct.params.any fun p => p.1 == charsetName && p.2.contains chComma
+def valueCRLF (ct : CT) : Bool := ct.params.any fun p => p.2.any lineBreak
+def valueEncodedWord (ct : CT) : Bool := ct.params.any fun p => hasEncodedWordStart p.2
+
+
+/-! ## the domain the property quantifies over (enforced by the input codec) -/
+
+def hasDupNames : List (Text × Text) → Bool
+  | [] => false
+  | p :: ps => ps.any (·.1 == p.1) || hasDupNames ps
+
+def CT.wf (ct : CT) : Bool :=
+  isToken ct.type && isToken ct.subtype && ct.params.all (fun p => isToken p.1) && !hasDupNames ct.params
+
+def StreamIn.wf (i : StreamIn) : Bool :=
+  i.chunkSize ≥ 1 && (match i.seekTo with | some (_, w) => w ≤ 2 | none => true)
+
+def Input.wf : Input → Bool
+  | .text s => s.all validCp
+  | .json d => d.all validCp
+  | .stream i => i.wf
+  | .ctype ct => ct.wf
+  | _ => true
 
 def decodeModel (isText : Bool) (cs : Charset) (chunks : List Bytes) (whole : Option Text) : Trace :=
   let r : Option (List Text) × Option Text := match cs with
